@@ -8,5 +8,6 @@ CONSTANTS BlockLists = {"b1"}
           SchedBeh <- BehSched
           FileBeh <- BehFile
           SetURLBeh <- BehNone
+          Toggle = FALSE
           SetURLAsIs = FALSE
 INVARIANTS InvCoherent
